@@ -539,6 +539,50 @@ func TestCheckAgreement(t *testing.T) {
 	})
 }
 
+// FuzzAgreement drives the same oracle with coverage-guided native fuzzing (thorough tier): the three annotation
+// strings are fuzzed byte-wise, the pod shape comes from a few flag bits. Seeds: the literal table of the
+// generator. A failing input is saved as an ordinary replay file (the case, not the fuzz corpus entry).
+func FuzzAgreement(f *testing.F) {
+	for i, l := range numberLits {
+		f.Add(l, numberLits[(i*7+3)%len(numberLits)], numberLits[(i*13+5)%len(numberLits)], uint16(i*37))
+	}
+	f.Fuzz(func(t *testing.T, frac, mem, cnt string, flags uint16) {
+		c := &Case{Sharing: flags&1 == 0, Owner: flags&2 != 0}
+		if flags&4 != 0 {
+			c.Fraction = &frac
+		}
+		if flags&8 != 0 {
+			c.Memory = &mem
+		}
+		if flags&16 != 0 {
+			c.Count = &cnt
+		}
+		c.Containers = []Container{{Name: "c0", CPU: 100}}
+		if flags&32 != 0 {
+			c.Containers[0].GPUs = int(flags>>12)%4 + 1
+		}
+		if flags&64 != 0 {
+			c.Containers = append(c.Containers, Container{Name: "c1", CPU: 100})
+		}
+		if flags&128 != 0 {
+			ic := Container{Name: "i0", CPU: 100}
+			if flags&256 != 0 {
+				ic.GPUs = 1
+			}
+			c.Inits = []Container{ic}
+		}
+		if flags&512 != 0 {
+			n := []string{"c0", "c1", "i0", "nope", ""}[int(flags>>10)%5]
+			c.ContainerNm = &n
+		}
+		sig, msg, _ := judge(c)
+		if sig != "" && !kit.Known(prop, sig) {
+			path := kit.Violation(prop, sig, msg, c, nil)
+			t.Fatalf("VIOLATION %s: %s (%s)", sig, msg, path)
+		}
+	})
+}
+
 func TestReplay(t *testing.T) {
 	kit.ReplayMain(t, func(rf *kit.ReplayFile) kit.ReplayResult {
 		var c Case
